@@ -310,7 +310,7 @@ class Cfg:
 
     def s(self):
         parts = ["r=" + hx(self.repl), "n=%d" % self.n, "b=%d" % self.b, "i=%d" % self.i, "w=%d" % self.w]
-        parts.append("e=" + ":".join(hx(p) for p in self.eager))
+        parts.append("e=" + ":".join("x" + hx(p) for p in self.eager))
         parts.append("z=" + (hx(self.re) if self.re else ""))
         parts.append("y=%d" % self.enc)
         return ";".join(parts)
